@@ -48,3 +48,14 @@ pub mod as_xf {
         Ok(XF::deserialize(d)?.0)
     }
 }
+
+pub mod as_opt_xf {
+    use super::XF;
+    use serde::{Deserialize, Deserializer, Serialize, Serializer};
+    pub fn serialize<S: Serializer>(v: &Option<f64>, s: S) -> Result<S::Ok, S::Error> {
+        v.map(XF).serialize(s)
+    }
+    pub fn deserialize<'de, D: Deserializer<'de>>(d: D) -> Result<Option<f64>, D::Error> {
+        Ok(Option::<XF>::deserialize(d)?.map(|x| x.0))
+    }
+}
